@@ -88,6 +88,7 @@ type ineq struct {
 }
 
 type proverCtx struct {
+	linDepth  int
 	nilKnown  map[ssa.Value]bool // error/pointer values known nil (true) / non-nil (false) at the site
 	subst     map[ssa.Value]ssa.Value
 	siteBlock map[*ssa.Function]*ssa.BasicBlock
@@ -536,7 +537,15 @@ func (p *proverCtx) nonneg(v ssa.Value) bool {
 
 // lin translates an SSA integer value into a linear expression over prover variables.
 func (p *proverCtx) lin(v ssa.Value) *linexp {
-	if s, ok := p.subst[v]; ok {
+	// a substitution cycle (a helper's parameter standing for an expression that mentions the same parameter:
+	// a self-recursive helper, or a helper inlined into its own body) must not unfold for ever: past a generous
+	// depth the value is opaque
+	p.linDepth++
+	defer func() { p.linDepth-- }()
+	if p.linDepth > 400 {
+		return p.varFor(lvar{v: v, kind: 'v'})
+	}
+	if s, ok := p.subst[v]; ok && s != v {
 		return p.lin(s)
 	}
 	if k, ok := constInt(v); ok {
